@@ -53,7 +53,7 @@ META={
    "Every seed, seeds with tails, mutants and structured inputs whose deciding bytes lie at offsets given by length fields (ID3, CRX, tar members, OLE, Matroska, zip, fixed-offset signatures) are detected at every limit; seeds' magic numbers followed by every literal of the signature packages (read from the tree under test); DetectReader with limits next to 2^32; once binary, every larger limit must be binary."+HELD,
    "Trusted: class definition (text = text/plain in the chain); limits between sparse sample points are not executed."),
  "C18":M("exploration","C18","archive/tar as conforming writer + exhaustive single-byte corruption of the first block per archive",
-   "Random headers over USTAR/PAX/GNU (hostile names, base-256 ids and sizes, all type flags, header-only members that record a size and are followed by a member with data) written by archive/tar must be reported as application/x-tar (the reported type itself) unless a higher-priority root format's pinned signature is carried by the leading bytes; member names and member data carry other formats' signatures; then all 504 x 255 single-byte corruptions outside the checksum field must not be tar."+HELD+" One known finding (gpkg exclusion) is replayed and listed.",
+   "Random headers over USTAR/PAX/GNU (hostile names, base-256 ids and sizes, all type flags, header-only members that record a size and are followed by a member with data) written by archive/tar must be reported as application/x-tar (the reported type itself) unless a higher-priority root format's pinned signature is carried by the leading bytes; member names and member data carry other formats' signatures; entry points Detect, DetectReader (odd chunks), DetectFile on a file, a symbolic link and a named pipe; then all 504 x 255 single-byte corruptions outside the checksum field must not be tar."+HELD+" One known finding (gpkg exclusion) is replayed and listed.",
    "Trusted: archive/tar; names ending in /gpkg-1 are excluded from generation (KNOWN_FINDINGS)."),
  "C19":M("exploration","C19","archive/zip as writer AND reader: verdict predicted from the read-back entry list, 9 writer layouts per entry",
    "Generated entry lists (OOXML bookkeeping, markers at positions 2-10, near misses incl. every marker in other letter cases, directory entries, JAR/APK/ODF/EPUB, unrelated) written with 9 per-entry layouts (descriptor / sizes, store / deflate, extra field, ZIP64-form header, directories, local headers whose own DOS time / date / CRC-32 fields spell PK\\x03\\x04) incl. an aliasing body family; P1 P2 P3 N1 N2 and the application/zip parent are decided from zip.Reader's names."+HELD+" One known finding (phantom header inside the second local header) is replayed and listed.",
